@@ -96,6 +96,8 @@ class MultiVector:
 
         if not set(keys) <= set(algebra.indices_for_grades[grades]):
             raise ValueError(f"All keys should be of grades {grades}.")
+        if len(set(keys)) != len(keys):
+            raise ValueError("Every basis blade can be given only once in `keys`.")
 
         return cls.fromkeysvalues(algebra, keys, values)
 
